@@ -181,6 +181,52 @@ def second_look_family(viol, stats):
     stats["directed"] = stats.get("directed", 0) + 1
 
 
+def repaired_virtual_family(viol, stats):
+    """A target without an output file (a check, a phony target) or whose output is a directory fails in one run and
+    succeeds in the next: from then on it is an ordinary up-to-date target again — its script runs at most once per run
+    however many dependents request it, serially and at -j3, and a further run without changes runs nothing."""
+    for j in ("-j1", "-j3"):
+        pr = Project()
+        try:
+            pr.write("chk.do", "echo ran >>chk.runs\nredo-ifchange input\n[ -e ok ] || exit 1\n")
+            pr.write("tree.do", "echo ran >>tree.runs\nredo-ifchange input\n[ -e ok ] || exit 1\nmkdir \"$3\"\n")
+            pr.write("p.do", "redo-ifchange chk tree\necho p\n")
+            pr.write("q.do", "redo-ifchange chk tree\necho q\n")
+            pr.write("r.do", "sleep 0.3\nredo-ifchange chk tree\necho r\n")
+            pr.write("all.do", "redo-ifchange p q r\n")
+            pr.write("input", "1")
+            r1 = sched.run_cmds(pr, [["redo", j, "all"]], timeout=60)[0]          # chk and tree fail
+            pr.write("ok", "")
+            counts = []
+            for k in range(3):
+                before = {n: len((pr.read(n + ".runs") or b"").split()) for n in ("chk", "tree")}
+                r = sched.run_cmds(pr, [["redo", j, "all"]], timeout=60)[0]
+                stats["builds"] += 1
+                after = {n: len((pr.read(n + ".runs") or b"").split()) for n in ("chk", "tree")}
+                counts.append(dict(rc=r.rc, runs={n: after[n] - before[n] for n in after}))
+            problems = []
+            if r1.rc == 0:
+                problems.append("the first run exits 0 although chk and tree fail")
+            if counts[0]["rc"] != 0:
+                problems.append("the run after the repair exits %d" % counts[0]["rc"])
+            for n in ("chk", "tree"):
+                if counts[0]["runs"][n] != 1:
+                    problems.append("%s.do ran %d times in the run after the repair (three dependents)" % (n, counts[0]["runs"][n]))
+            # chk has no output file: like every target without one it is rebuilt by every run that needs it … once
+            for k in (1, 2):
+                for n in ("chk", "tree"):
+                    if counts[k]["runs"][n] > 1:
+                        problems.append("%s.do ran %d times in later run %d" % (n, counts[k]["runs"][n], k))
+            if problems:
+                p = write_replay("C07", "repaired-virtual", dict(kind="impl-monitor", j=j, problems=problems, counts=counts,
+                                                                 scenario="chk.do (no output) and tree.do (mkdir $3) fail until the file `ok` exists; p, q, r depend on both; redo %s all, touch ok, redo %s all three times" % (j, j)))
+                viol.append(Violation("C07", p, "a target without an output file that failed and was repaired (%s): " % j + "; ".join(problems[:3])))
+                return
+        finally:
+            pr.destroy()
+    stats["directed"] = stats.get("directed", 0) + 1
+
+
 def keep_going_locked_sibling_family(viol, stats):
     """--keep-going with a failing target and, in the same command, a target that another job is building at the moment:
     the command must still report the failure (same status class as the serial build, the dependent not built), and its
@@ -347,6 +393,8 @@ def run(ctx):
         late_declaration_family(viol, stats)
     if not viol:
         keep_going_locked_sibling_family(viol, stats)
+    if not viol:
+        repaired_virtual_family(viol, stats)
     if not viol:
         second_look_family(viol, stats)
     return dict(evaluations=stats["builds"], distinct_nontrivial=stats["projects"],
